@@ -923,7 +923,7 @@ theorem markLast_id {l m : List BoF} (h : markLast l = some m) (hl : LastOK l) :
         subst h
         rw [ih hm hl.2]
 
-theorem mem_boundsOnly {b : UserBounds} {l : List BoF} : b ∈ boundsOnly l ↔ BoF.bound b ∈ l := by
+theorem mem_boundsOnly_iff {b : UserBounds} {l : List BoF} : b ∈ boundsOnly l ↔ BoF.bound b ∈ l := by
   induction l with
   | nil => simp [boundsOnly]
   | cons a t ih => cases a <;> simp [boundsOnly, ih]
@@ -1025,7 +1025,7 @@ theorem stream_refines_spec (opt : Opt) (so : StreamOpt) (h : streamOptOf opt = 
     have := hneg
     simp only [hasNegativeIndices, List.any_eq_false, Bool.or_eq_true, not_or,
       Bool.not_eq_true] at this
-    exact ⟨hwfb b (mem_boundsOnly.1 hbm), (this b hbm).1, (this b hbm).2⟩
+    exact ⟨hwfb b (mem_boundsOnly_iff.1 hbm), (this b hbm).1, (this b hbm).2⟩
   have hfwd : Fwd 0 so.bounds := by rw [hb]; exact fwd_of_parts _ 0 hfwdU hlast
   have hlr' : lastR so.bounds = some so.lastInterestingField := by rw [lastR_eq]; exact hlr
   have hcs : CfgStream so (cfgOf opt) := by
